@@ -33,6 +33,7 @@ func C02() *engine.Scenario {
 func runC02(c *engine.Ctx) {
 	p := c.Plan
 	w := &signWorld{c: c, features: map[string]bool{}, yamlSafe: true}
+	w.oddEnvNames = c.Plan.Draw(3, "cfg:odd-env-names") == 2
 	kp := pickKey(p)
 	interp := p.Draw(4, "cfg:interpolate") == 3
 	w.rich = !interp && p.Draw(3, "cfg:rich") != 0
